@@ -169,6 +169,9 @@ func (e *Encoder) copyArr(cm *ssa.CallCommon, args []Val, st *State, pc string) 
 	}
 	n := c.define("ncopy", c.idx(), fmt.Sprintf("(ite %s %s %s)", c.cmp("<=", intT, dlen, sl), dlen, sl))
 	if !scalarElem(elem) {
+		if _, isSl := s.T.Underlying().(*types.Slice); isSl && e.copyAggregate(d, s, elem, n, st, pc) {
+			return Val{T: intT, S: n}
+		}
 		// aggregate elements: the destination's cells (within its capacity) become unknown, nothing else changes
 		if err := e.havocRange(st, d, elem); err != nil {
 			e.havocAll(st, "copy of aggregate elements")
@@ -194,6 +197,56 @@ func (e *Encoder) copyArr(cm *ssa.CallCommon, args []Val, st *State, pc string) 
 	c.assume(implies(pc, fmt.Sprintf("(forall ((i!c %s)) (! (= (select %s i!c) (ite %s %s (select %s i!c))) :pattern ((select %s i!c))))", c.idx(), arr, inr, src, old, arr)))
 	st.mem[key] = c.define("M_"+key, srt, fmt.Sprintf("(store %s (sbase %s) %s)", A, d.S, arr))
 	return Val{T: intT, S: n}
+}
+
+// copyAggregate models copy(d, s) for struct elements without arrays: every leaf cell of the destination elements
+// [doff, doff+n) takes the value of the same leaf of the source element at the same relative position (read in the
+// memory before the copy, which is also right for overlapping ranges); every other cell is unchanged.
+func (e *Encoder) copyAggregate(d, s Val, elem types.Type, n string, st *State, pc string) bool {
+	c := e.c
+	intT := types.Typ[types.Int]
+	sls, ok := structLeaves(c, elem)
+	if !ok {
+		return false
+	}
+	byKey := map[string][]structLeaf{}
+	var keys []string
+	for _, l := range sls {
+		k := c.memKey(l.t)
+		if _, seen := byKey[k]; !seen {
+			keys = append(keys, k)
+		}
+		byKey[k] = append(byKey[k], l)
+	}
+	doff, soff := fmt.Sprintf("(soff %s)", d.S), fmt.Sprintf("(soff %s)", s.S)
+	for _, key := range keys {
+		srt := c.memSort(byKey[key][0].t)
+		cur := st.get(c, key, srt)
+		nm := c.fresh("M_" + key)
+		c.declare(nm, srt)
+		val := fmt.Sprintf("(select %s p!y)", cur)
+		for i := len(byKey[key]) - 1; i >= 0; i-- {
+			l := byKey[key][i]
+			var conds []string
+			q := "p!y"
+			for k := len(l.path) - 1; k >= 0; k-- {
+				conds = append(conds, fmt.Sprintf("((_ is lfield) %s)", q), fmt.Sprintf("(= (fid %s) %d)", q, l.path[k]))
+				q = fmt.Sprintf("(fbase %s)", q)
+			}
+			idx := fmt.Sprintf("(eidx %s)", q)
+			conds = append(conds, fmt.Sprintf("(is_lelem %s)", q), fmt.Sprintf("(= (ebase %s) (sbase %s))", q, d.S),
+				c.cmp("<=", intT, doff, idx), c.cmp("<", intT, idx, c.binopIdx("+", doff, n)))
+			src := fmt.Sprintf("(lelem (sbase %s) %s)", s.S, c.binopIdx("+", soff, c.binopIdx("-", idx, doff)))
+			for _, f := range l.path {
+				src = fmt.Sprintf("(lfield %s %d)", src, f)
+			}
+			val = fmt.Sprintf("(ite %s (select %s %s) %s)", and(conds...), cur, src, val)
+		}
+		c.assume(implies(pc, fmt.Sprintf("(forall ((p!y Loc)) (! (= (select %s p!y) %s) :pattern ((select %s p!y))))", nm, val, nm)))
+		st.mem[key] = nm
+	}
+	e.usedStdlib["copy of struct elements (element-wise, leaf by leaf)"] = true
+	return true
 }
 
 // havocElems havocs the cells [off, off+cap) of slice s's backing array (scalar elements), or the
